@@ -1702,7 +1702,9 @@ func (c *Conn) handleUnpackedLongHeaderPacket(
 		}
 	}
 
-	c.lastPacketReceivedTime = rcvTime
+	// Packets that were buffered until their keys became available carry their original
+	// receive time: never move the start of the idle period backwards.
+	c.lastPacketReceivedTime = max(c.lastPacketReceivedTime, rcvTime)
 	c.firstAckElicitingPacketAfterIdleSentTime = 0
 	c.keepAlivePingSent = false
 
@@ -1752,7 +1754,9 @@ func (c *Conn) handleUnpackedShortHeaderPacket(
 	rcvTime monotime.Time,
 	log func([]qlog.Frame),
 ) (isNonProbing bool, pathChallenge *wire.PathChallengeFrame, _ error) {
-	c.lastPacketReceivedTime = rcvTime
+	// Packets that were buffered until their keys became available carry their original
+	// receive time: never move the start of the idle period backwards.
+	c.lastPacketReceivedTime = max(c.lastPacketReceivedTime, rcvTime)
 	c.firstAckElicitingPacketAfterIdleSentTime = 0
 	c.keepAlivePingSent = false
 
